@@ -91,7 +91,29 @@ def oracle(case, res):
     if not labs and news: return None     # reindexing from an empty axis: see KNOWN_FINDINGS (F20)
     found = [_find(labs, v) for v in news]
     if method is not None:
-        return None      # neighbour rule is covered by the model correspondence (np.searchsorted semantics)
+        # "method='left'/'right' takes the neighbouring label in sorted order as numpy.searchsorted would"
+        if any(isinstance(x, str) for x in labs) != any(isinstance(x, str) for x in news) or not news: return None
+        if res[0] == 'err': return None if raise_error else 'reindexing with method=%s raised %s' % (method, res[1])
+        try:
+            order = sorted(range(len(labs)), key=lambda j: labs[j]); srt = [labs[j] for j in order]
+            import bisect
+            src = []
+            for v in news:
+                c = bisect.bisect_left(srt, v) if method == 'left' else bisect.bisect_right(srt, v)
+                src.append(order[min(c, len(labs) - 1)])
+        except TypeError: return None
+        if raise_error and any(labs[sj] != v for sj, v in zip(src, news)): return None
+        rr = res[1]['v']
+        if not labs_eq(rr['axes'][i]['labels'], news): return 'method=%s: axis is %r, expected exactly %r' % (method, rr['axes'][i]['labels'], news)
+        arr = mk_array(a)
+        want = np.take(np.asarray(arr.values), src, axis=i).ravel().tolist()
+        got = rr['flat']
+        if len(want) != len(got): return 'method=%s: shape differs' % method
+        for g, w in zip(got, want):
+            wn = isinstance(w, float) and w != w
+            if isinstance(g, dict) != wn or (not wn and not isinstance(g, dict) and float(g) != float(w)):
+                return 'method=%s: slices are not those of the searchsorted(side=%s) neighbours (positions %r): got %r, expected %r' % (method, method, src, got, want)
+        return None
     missing = any(f is None for f in found)
     if raise_error and missing:
         return None if res == ('err', 'IndexError') else 'raise_error=True with a new label did not raise IndexError: %r' % (res[:2],)
